@@ -44,6 +44,11 @@ func GenerateAndOutputSpec(config *definitions.OpenAPIGeneratorConfig, defs []de
 		return err
 	}
 
+	return OutputSpec(config, jsonBytes)
+}
+
+// OutputSpec writes an already generated specification to the configured path
+func OutputSpec(config *definitions.OpenAPIGeneratorConfig, jsonBytes []byte) error {
 	// Extract path from file path
 	// Extract the directory path
 	dirPath := filepath.Dir(config.SpecGeneratorConfig.OutputPath)
